@@ -395,6 +395,9 @@ def evaluate_arithmetic(op, lval, rval):
         return result
     except ZeroDivisionError:
         return error.DIV_ZERO
+    except OverflowError:
+        # the exact result is too large for a float (10^400/1, 10^400*0.5)
+        return error.NUM
 
 
 def evaluate_logic(op, lval, rval):
